@@ -519,6 +519,18 @@ void h_for_each_l0(void) {
   for_each_common(in_n0, 0, 0, 0, 0, 0, 0);
   CANARY();
 }
+/* quick variants with smaller bounds */
+void h_for_each_l0_q(void) {
+  IN_SIZE(in_n0);
+  ASSUME(in_n0 <= 2);
+  for_each_common(in_n0, 0, 0, 0, 0, 0, 0);
+  CANARY();
+}
+void h_for_each_levels_q(void) {
+  IN_SIZE(in_n1); IN_SIZE(in_n6);
+  for_each_common(0, in_n1, 0, 0, 0, 0, in_n6);
+  CANARY();
+}
 /* deeper levels: <= 1 file in level 0, <= 2 files in each of the levels 1, 2 and 6, levels 3..5 empty */
 void h_for_each_levels(void) {
   IN_SIZE(in_n0); IN_SIZE(in_n1); IN_SIZE(in_n2); IN_SIZE(in_n6);
@@ -689,7 +701,7 @@ void h_inputs_sorted(void) {
 }
 void h_inputs_level0(void) {
   IN_SIZE(in_n);
-  ASSUME(in_n <= 3);
+  ASSUME(in_n <= 2);
   mk_version(); mk_range_keys(); mk_level(0, in_n); g_lvl = 0;
   /* files are well-formed: smallest user key <= largest user key */
   ASSUME((in_n < 1 || g_suk[0][0] <= g_luk[0][0]) && (in_n < 2 || g_suk[0][1] <= g_luk[0][1]) && (in_n < 3 || g_suk[0][2] <= g_luk[0][2]));
@@ -747,7 +759,7 @@ void h_find_smallest_boundary(void) {
 void h_add_boundary_inputs(void) {
   IN_SIZE(in_n); IN_SIZE(in_a); IN_SIZE(in_b); IN_INT(in_two);
   ldb_vector_t cf; size_t i, j, m = 0, k0; int member[BF]; int have = 0;
-  ASSUME(in_n <= BF && in_n >= 1 && in_a < in_n && in_b < in_n && in_a != in_b);
+  ASSUME(in_n <= 3 && in_n >= 1 && in_a < in_n && in_b < in_n && in_a != in_b);
   mk_version(); mk_level(1, in_n);
   ASSUME(WF_FILES(1));
   ldb_vector_init(&cf);
@@ -806,11 +818,19 @@ void h_is_base_level(void) {
   ASSUME(in_level >= 0 && in_level <= LDB_NUM_LEVELS - 2);
   ASSUME(in_n2 <= 2 && in_n3 <= 2 && in_n4 <= 2 && in_n5 <= 2 && in_n6 <= 2);
   mk_version(); mk_level(2, in_n2); mk_level(3, in_n3); mk_level(4, in_n4); mk_level(5, in_n5); mk_level(6, in_n6);
-  g_c.level = in_level; g_c.input_version = &g_ver;
+  g_c.input_version = &g_ver;
   g_c.level_ptrs[0] = nondet_size(); g_c.level_ptrs[1] = nondet_size(); g_c.level_ptrs[2] = nondet_size(); g_c.level_ptrs[3] = nondet_size();
   g_c.level_ptrs[4] = nondet_size(); g_c.level_ptrs[5] = nondet_size(); g_c.level_ptrs[6] = nondet_size();
   g_bq = nondet_u8(); g_bq_b[0] = g_bq; g_bqs.data = g_bq_b; g_bqs.size = 1; g_bqs.alloc = 0;
-  ldb_compaction_is_base_level_for_key(&g_c, &g_bqs);
+  /* one call site per concrete level (keeps the level index of every access constant for CBMC) */
+  switch (in_level) {
+    case 0: g_c.level = 0; ldb_compaction_is_base_level_for_key(&g_c, &g_bqs); break;
+    case 1: g_c.level = 1; ldb_compaction_is_base_level_for_key(&g_c, &g_bqs); break;
+    case 2: g_c.level = 2; ldb_compaction_is_base_level_for_key(&g_c, &g_bqs); break;
+    case 3: g_c.level = 3; ldb_compaction_is_base_level_for_key(&g_c, &g_bqs); break;
+    case 4: g_c.level = 4; ldb_compaction_is_base_level_for_key(&g_c, &g_bqs); break;
+    default: g_c.level = 5; ldb_compaction_is_base_level_for_key(&g_c, &g_bqs); break;
+  }
   CANARY();
 }
 
@@ -836,9 +856,10 @@ void h_add_files(void) {
   ASSUME(in_n0 <= 2 && in_n1 <= 2 && in_n2 <= 2 && in_n3 <= 2 && in_versions >= 1 && in_versions <= 2);
   mk_version(); mk_level(0, in_n0); mk_level(1, in_n1); mk_level(2, in_n2); mk_level(3, in_n3);
   /* version 1 = g_ver with model levels 0, 5; version 2 holds model levels 2, 3 as its levels 0, 6 */
-  g_ver.files[5] = g_ver.files[1]; g_ver.files[1].length = 0;
-  g_ver2 = g_ver; g_ver2.files[0] = g_ver.files[2]; g_ver2.files[6] = g_ver.files[3]; g_ver2.files[5].length = 0;
-  g_ver.files[2].length = 0; g_ver.files[3].length = 0;
+  { ldb_vector_t m2 = g_ver.files[2], m3 = g_ver.files[3];
+    g_ver.files[2].length = 0; g_ver.files[3].length = 0;
+    g_ver.files[5] = g_ver.files[1]; g_ver.files[1].length = 0;
+    g_ver2 = g_ver; g_ver2.files[5].length = 0; g_ver2.files[0] = m2; g_ver2.files[6] = m3; }
   g_vset.dummy_versions.next = &g_ver; g_ver.prev = &g_vset.dummy_versions;
   if (in_versions == 2) { g_ver.next = &g_ver2; g_ver2.prev = &g_ver; g_ver2.next = &g_vset.dummy_versions; g_vset.dummy_versions.prev = &g_ver2; }
   else { g_ver.next = &g_vset.dummy_versions; g_vset.dummy_versions.prev = &g_ver; }
